@@ -1,4 +1,5 @@
 import GeomV.C03.Tie
+import GeomV.C03.JudgeOp
 /-!
 Driver for C03: `geomv_c03 judge` reads `<input> => <implementation answer>` lines and prints one
 verdict per line (`OK <class>` | `DIFF <class> <why>` | `SPEC <class> <why>`).
@@ -71,8 +72,12 @@ def tri (l : List Bool) : String :=
 /-- `-mag:far` (formerly `-mag:xl`, the signature of the known finding that fix 4edcec2 closed) when the coordinates are so large or so small that the cubic moment sums of the centroid
 formula leave the float64 range (|coordinate| ≥ 2^340 or all ≤ 2^-340) -/
 def magTag (p : Poly) : String :=
-  let m := p.foldl (fun m r => r.foldl (fun m v => max m (max (Spec.absR v.x) (Spec.absR v.y))) m) 0
-  if m ≥ (2:Rat)^340 || (0 < m && m ≤ 1 / (2:Rat)^340) then "-mag:far" else ""
+  let mx := maxAbsX p
+  let my := maxAbsY p
+  let far (m : Rat) : Bool := m ≥ (2:Rat)^340 || (0 < m && m ≤ 1 / (2:Rat)^340)
+  -- `-aniso`: the extents in x and y differ by more than 2^200 (the per-axis rescaling of the centroids)
+  let aniso : Bool := 0 < mx && 0 < my && (mx ≥ my * (2:Rat)^200 || my ≥ mx * (2:Rat)^200)
+  (if far mx || far my then "-mag:far" else "") ++ (if aniso then "-aniso" else "")
 
 def polyTag (p : Poly) : String :=
   s!"r{min p.length 6}-closed:{tri (p.map isClosedRing)}-cw:{tri (p.map fun r => decide (Spec.shoelace2 r < 0))}"
@@ -86,12 +91,13 @@ def bbox (rs : Poly) : Option (Rat × Rat × Rat × Rat) :=
   | [] => none
   | v :: t => some (t.foldl (fun (a : Rat × Rat × Rat × Rat) w => (min a.1 w.x, max a.2.1 w.x, min a.2.2.1 w.y, max a.2.2.2 w.y)) (v.x, v.x, v.y, v.y))
 
-def inBBox (rs : Poly) (c : P) (scale : Rat) : Bool :=
+def inBBox (rs : Poly) (c : P) (scale : Rat × Rat) : Bool :=
   match bbox rs with
   | none => false
   | some (x0, x1, y0, y1) =>
-    let t := eps * scale
-    decide (x0 - t ≤ c.x) && decide (c.x ≤ x1 + t) && decide (y0 - t ≤ c.y) && decide (c.y ≤ y1 + t)
+    let tx := eps * scale.1
+    let ty := eps * scale.2
+    decide (x0 - tx ≤ c.x) && decide (c.x ≤ x1 + tx) && decide (y0 - ty ≤ c.y) && decide (c.y ≤ y1 + ty)
 
 /-- parse `ok hx hy` / `panic …` / `err` -/
 inductive PRes where
@@ -107,17 +113,18 @@ def pRes : Tok → PRes
 def showPRes : PRes → String
   | .pt x y => s!"({showFV x},{showFV y})" | .panic => "panic" | .err => "err" | .bad => "unparsable"
 
-/-- implementation centroid vs model centroid -/
-def centAgrees (impl : PRes) (m : Except Fault (FQ × FQ)) (scale : Rat) : Bool :=
+/-- implementation centroid vs model centroid; the tolerance of each coordinate is relative to the
+largest |coordinate| on ITS axis (`scale = (max |x|, max |y|)`) -/
+def centAgrees (impl : PRes) (m : Except Fault (FQ × FQ)) (scale : Rat × Rat) : Bool :=
   match impl, m with
-  | .pt x y, .ok (mx, my) => fvAgrees false x mx scale && fvAgrees false y my scale
+  | .pt x y, .ok (mx, my) => fvAgrees false x mx scale.1 && fvAgrees false y my scale.2
   | .panic, .error _ => true
   | _, _ => false
 
 /-- implementation centroid vs a spec point -/
-def centIs (impl : PRes) (c : P) (scale : Rat) : Bool :=
+def centIs (impl : PRes) (c : P) (scale : Rat × Rat) : Bool :=
   match impl with
-  | .pt (.fin x) (.fin y) => close x c.x scale && close y c.y scale
+  | .pt (.fin x) (.fin y) => close x c.x scale.1 && close y c.y scale.2
   | _ => false
 
 def showCent : Except Fault (FQ × FQ) → String
@@ -203,7 +210,7 @@ def judgeCent (tag : String) (p : Poly) (rhs : Tok) : String :=
   let cls := s!"cent-{tag}-{match order with | some (_, true) => "valid-touch" | some _ => "valid" | none => "invalid"}-{polyTag p}{magTag p}"
   let r1 := pRes (rhs.takeWhile (· ≠ "|"))
   let r2 := pRes (rhs.drop ((rhs.takeWhile (· ≠ "|")).length + 1))
-  let scale := maxAbs p
+  let scale := (maxAbsX p, maxAbsY p)
   let m := polygonCentroid p
   let mo : Except Fault (FQ × FQ) := .ok (opCentroid p)
   let wantS := Spec.centroidSigned c
@@ -229,7 +236,7 @@ def judgeMCent (tag : String) (mp : MPoly) (rhs : Tok) : String :=
   let inStatement := valid && closed
   let cls := s!"mcent-{tag}-{if valid then (if touch then "valid-touch" else "valid") else "invalid"}-{mpolyTag mp}{magTag mp.flatten}"
   let r := pRes rhs
-  let scale := maxAbs mp.flatten
+  let scale := (maxAbsX mp.flatten, maxAbsY mp.flatten)
   let m : Except Fault (FQ × FQ) := .ok (multiPolygonCentroid mp)
   let want := Spec.mcentroid c
   if inStatement && !centIs r want scale then
@@ -412,7 +419,7 @@ def judgeLine (line : String) : String :=
     match (judgeToks rest).splitOn " " with
     | k :: cls :: why => " ".intercalate (k :: ("conc-" ++ cls) :: why)
     | _ => "BAD line"
-  | toks => judgeToks toks
+  | toks => (judgeOp toks).getD (judgeToks toks)
 
 end GeomV.C03
 
